@@ -22,51 +22,7 @@ use std::time::{Duration, Instant};
 // ---------------------------------------------------------------------------------------------
 // documents
 
-const NS: &str = "xmlns=\"http://www.w3.org/2005/07/scxml\" version=\"1.0\"";
-
-/// a session that talks to a peer session: `peer` (set the peer), `go` (send now), `later`
-/// (delayed send, with or without id), `ping` (answer to the origin), `cancel`, `stop`
-fn peer_doc(dm: &str) -> String {
-    format!(
-        "<scxml {NS} datamodel=\"{dm}\" initial=\"idle\">\
-         <datamodel><data id=\"peer\" expr=\"0\"/><data id=\"n\" expr=\"0\"/></datamodel>\
-         <state id=\"idle\">\
-          <transition event=\"peer\"><assign location=\"peer\" expr=\"_event.data.id\"/></transition>\
-          <transition event=\"go\"><send event=\"ping\" targetexpr=\"'#_scxml_' + peer\"/></transition>\
-          <transition event=\"later\"><send event=\"ping\" delay=\"2ms\" targetexpr=\"'#_scxml_' + peer\"/>\
-             <send id=\"d1\" event=\"ping\" delay=\"4ms\" targetexpr=\"'#_scxml_' + peer\"/></transition>\
-          <transition event=\"self\"><send event=\"pong\" delay=\"1ms\"/><send event=\"pong\"/></transition>\
-          <transition event=\"cancel\"><cancel sendid=\"d1\"/></transition>\
-          <transition event=\"ping\"><send event=\"pong\" targetexpr=\"_event.origin\"/></transition>\
-          <transition event=\"pong\"><assign location=\"n\" expr=\"n + 1\"/></transition>\
-          <transition event=\"stop\" target=\"end\"/>\
-         </state><final id=\"end\"/></scxml>"
-    )
-}
-
-/// a session that invokes a child (inline content) on every entry of `s1`, with a delayed send of
-/// its own pending; the child talks to `#_parent`, the parent to `#_kid`
-fn invoker_doc(dm: &str, delay_ms: u32, with_id: bool) -> String {
-    let id = if with_id { " id=\"t1\"" } else { "" };
-    format!(
-        "<scxml {NS} datamodel=\"{dm}\" initial=\"s0\">\
-         <state id=\"s0\"><transition event=\"go\" target=\"s1\"/><transition event=\"stop\" target=\"end\"/></state>\
-         <state id=\"s1\">\
-          <onentry><send{id} event=\"tick\" delay=\"{delay_ms}ms\"/></onentry>\
-          <invoke id=\"kid\"><content>\
-           <scxml {NS} datamodel=\"{dm}\" initial=\"c1\">\
-            <state id=\"c1\"><onentry><send target=\"#_parent\" event=\"hello\"/><send event=\"ctick\" delay=\"1ms\"/></onentry>\
-             <transition event=\"bye\" target=\"cend\"/></state><final id=\"cend\"/></scxml>\
-          </content></invoke>\
-          <transition event=\"hello\"><send target=\"#_kid\" event=\"bye\"/></transition>\
-          <transition event=\"done.invoke.kid\" target=\"s2\"/>\
-          <transition event=\"abort\" target=\"s2\"/>\
-          <transition event=\"stop\" target=\"end\"/>\
-         </state>\
-         <state id=\"s2\"><transition event=\"go\" target=\"s1\"/><transition event=\"stop\" target=\"end\"/></state>\
-         <final id=\"end\"/></scxml>"
-    )
-}
+use super::{invoker_doc, peer_doc, NS};
 
 /// `<send eventexpr="v" targetexpr="v"/>`: both expressions evaluate to the cell of variable `v`
 fn relock_doc() -> String {
@@ -792,7 +748,7 @@ pub fn run(args: &Args, model: &mut Model, table: &Table, rep: &mut Report) {
     run_tour(table, model, rep, &mut seen, &mut confirmed);
     // generated stress scenarios: in worker processes, because about every second scenario really
     // deadlocks on the unchanged code and its threads (sessions, timers, hosts) can only be leaked
-    let n: u64 = if args.thorough { 1600 } else { 120 };
+    let n: u64 = if args.thorough { 6000 } else { 120 };
     let batch: u64 = if args.thorough { 50 } else { 30 };
     let parallel = if args.thorough { 4 } else { 2 };
     let budget = Duration::from_secs(if args.thorough { 660 } else { 75 });
